@@ -99,6 +99,9 @@ def decorations(nroles: int) -> list[Any]:
         out.append(lambda r, j=j: ("add", r, ("smul", ("q", ), ("r", j))))
         out.append(lambda r, j=j: ("sub", ("smul", ("p", ), r), ("r", j)))
     out.append(lambda r: ("add", r, ("zero", )))
+    # very small floating-point coefficients (physical constants in SI units)
+    out.append(lambda r: ("num", sp.Float("1.602e-19"), r))
+    out.append(lambda r: ("add", r, ("num", sp.Float("1e-19"), ("r", min(nroles, 3)))))
     # division by a scalar (which may be negative): alone, and sums over one / two divisors
     out.append(lambda r: ("sdiv", ("q", ), r))
     for j in sorted({0, min(nroles, 3)}):
@@ -357,7 +360,16 @@ def same(a: Any, b: Any) -> bool:
     for shift in (0, 5, 11):
         vals = {s: sp.Rational(3 + 7 * ((i + shift) % 13), 5 + ((i * 3 + shift) % 7)) * (-1)**(i +
             shift) for i, s in enumerate(syms)}
-        if abs(sp.N(d.xreplace(vals), 40)) > sp.Float("1e-25"):
+        tol = sp.Float("1e-25")
+        dd = d
+        if d.atoms(sp.Float):
+            # floating-point coefficients: taken as the exact rationals they are (a + 1e-19*b must
+            # not lose the small term in the reference), and the library's own 15-digit products
+            # are allowed their rounding, relative to the size of the value
+            exact = {f: sp.Rational(f) for f in d.atoms(sp.Float)}
+            dd = d.xreplace(exact)
+            tol = sp.Float("1e-11") * abs(sp.N(sp.sympify(a).xreplace(exact).xreplace(vals), 40))
+        if abs(sp.N(dd.xreplace(vals), 40)) > tol:
             return False
     return True
 
